@@ -43,6 +43,21 @@ class BoxS:
 
 BOXTAG = PY + 'object:vf.checks.c13.Box'
 BOXSTAG = PY + 'object:vf.checks.c13.BoxS'
+
+
+class YBox(yaml.YAMLObject):
+    """A YAMLObject (two-phase construction through from_yaml) known to the full and unsafe loaders of both back-ends."""
+    yaml_tag = '!ybox'
+    yaml_loader = [getattr(yaml, n) for n in ('FullLoader', 'UnsafeLoader', 'CFullLoader', 'CUnsafeLoader') if hasattr(yaml, n)]
+
+
+class YSafe(yaml.YAMLObject):
+    """The same for the safe loaders (registered in this worker process only)."""
+    yaml_tag = '!ysafe'
+    yaml_loader = [getattr(yaml, n) for n in ('SafeLoader', 'CSafeLoader') if hasattr(yaml, n)]
+
+
+OBJ_CLASSES = {BOXTAG: Box, BOXSTAG: BoxS, '!ybox': YBox, '!ysafe': YSafe}
 LEVELS = {'safe': ['SafeLoader', 'CSafeLoader'], 'full': ['FullLoader', 'CFullLoader'], 'unsafe': ['UnsafeLoader', 'CUnsafeLoader']}
 
 
@@ -130,7 +145,7 @@ class GraphGen:
                 return a
         if depth >= 4 or c < 0.5:
             return self.scalar()
-        kinds = ['list', 'list', 'dict', 'dict', 'set', 'omap', 'pairs']
+        kinds = ['list', 'list', 'dict', 'dict', 'set', 'omap', 'pairs', 'ybox']
         if self.level in ('full', 'unsafe'):
             kinds += ['tuple', 'tuple']
         if self.level == 'unsafe':
@@ -159,6 +174,8 @@ class GraphGen:
             m = M([(self.keynode(used), self.node(depth + 1)) for _ in range(n)], flow, None, anchor)
         elif kind == 'box':
             m = M([(S('attr%d' % i, 'plain'), self.node(depth + 1)) for i in range(n)], flow, BOXTAG, anchor)
+        elif kind == 'ybox':
+            m = M([(S('attr%d' % i, 'plain'), self.node(depth + 1)) for i in range(n)], flow, '!ysafe' if self.level == 'safe' else '!ybox', anchor)
         elif kind == 'boxs':
             m = M([(S('attr%d' % i, 'plain'), self.node(depth + 1)) for i in range(max(n, 1))], flow, BOXSTAG, anchor)
             self.deep -= 1
@@ -180,6 +197,32 @@ class GraphGen:
         return m
 
     def keynode(self, used=None):
+        if self.r.random() < 0.07 and not self.deep:
+            # a constructed object as a key: hashable by identity, built in two phases, so it may refer to itself
+            # (directly, or through a list in its state) and to the mapping it is a key of
+            anchor = self.name()
+            tag = '!ysafe' if self.level == 'safe' else self.r.choice(['!ybox'] + ([BOXTAG] if self.level == 'unsafe' else []))
+            self.classes.add('object_key')
+            pairs = []
+            for i in range(self.r.choice([0, 1, 1, 2])):
+                c = self.r.random()
+                if c < 0.4:
+                    v = A(anchor)
+                    self.nalias += 1
+                    self.classes.add('recursive:object_key')
+                elif c < 0.6:
+                    v = Q([A(anchor)], True, None, None)
+                    self.nalias += 1
+                    self.classes.add('recursive:object_key')
+                elif c < 0.8:
+                    v = self.alias() or self.scalar()
+                else:
+                    v = self.scalar()
+                pairs.append((S('attr%d' % i, 'plain'), v))
+            m = M(pairs, True, tag, anchor)
+            self.closed.append((anchor, 'ybox', m))
+            self.pure[anchor] = False
+            return m
         if self.r.random() < 0.12:
             a = self.alias(hashable_only=True)
             if a is not None and used is not None and a.name in used:
@@ -307,7 +350,7 @@ def walk_model_nodes(model, node, table, seen):
             walk_model_nodes(mv, cv, table, seen)
 
 
-CONTAINERS = (list, dict, set, Box, BoxS)
+CONTAINERS = (list, dict, set, Box, BoxS, YBox, YSafe)
 
 
 def walk_nodes_objects(node, obj, n2o, o2n, visited):
@@ -350,9 +393,9 @@ def walk_nodes_objects(node, obj, n2o, o2n, visited):
             if type(obj) is not set or len(obj) != len(node.value):
                 raise Mismatch('!!set node built into %s' % type(obj).__name__)
             return
-        if tag in (BOXTAG, BOXSTAG):
-            if type(obj) is not (Box if tag == BOXTAG else BoxS):
-                raise Mismatch('python/object node built into %s' % type(obj).__name__)
+        if tag in OBJ_CLASSES:
+            if type(obj) is not OBJ_CLASSES[tag]:
+                raise Mismatch('object node (%s) built into %s' % (tag, type(obj).__name__))
             d = obj.__dict__
         else:
             if type(obj) is not dict:
@@ -361,6 +404,7 @@ def walk_nodes_objects(node, obj, n2o, o2n, visited):
         if len(d) != len(node.value):
             raise Mismatch('mapping node with %d pairs built into %d entries' % (len(node.value), len(d)))
         for (kn, vn), (k, v) in zip(node.value, d.items()):
+            walk_nodes_objects(kn, k, n2o, o2n, visited)
             walk_nodes_objects(vn, v, n2o, o2n, visited)
 
 
